@@ -7,6 +7,9 @@ import Rpki.Props.C01
 import Rpki.Model.SigObj
 import Rpki.Proofs.SigObjAttrs
 import Rpki.Proofs.CmsDerLemmas
+import Rpki.Gen.BerEq
+import Rpki.Gen.BerLemmas2
+import Rpki.Gen.BerMonoGen
 namespace Rpki.Props.C02
 set_option autoImplicit false
 open Rpki.Chain Rpki.Cert Rpki.SigObj Rpki.Der
@@ -287,5 +290,62 @@ theorem tampered_object_octets (b : Bytes) (o : SigObjD) (hb : AllBytes b) (hd :
     exact (C01.single_fault_rejects (toFacts o.cert false true eeSigOk) i now h).2.1
 
 end Octets
+
+/-! ### the same in either decoding mode
+
+Relying parties may decode signed objects in relaxed (BER) mode (`strict = false`).  `decodeSigObjM ber` is the
+mode-parametrized decoder (`Gen/BerModel.lean`; `ber = false` is `decodeSigObj`, a theorem), tied to the library by
+the `sor` / `roar` operations (objects re-written with BER's liberties outside the signed octets) and by `cmsdr`. -/
+section EitherMode
+open Rpki.CmsDer Rpki.CertDer
+
+/-- what the strict attribute reader reads, the reader of either mode reads -/
+theorem parseAttrs_any_mode (ber strict : Bool) (attrs : Bytes) (x : Bytes × Bytes × X509.Civil)
+    (h : parseAttrs strict attrs = some x) : SigObj.parseAttrsM ber strict attrs = some x := by
+  cases ber with
+  | false => rw [SigObj.parseAttrsM_false]; exact h
+  | true => rw [SigObj.parseAttrs_monoEq strict attrs (by simp [h])]; exact h
+
+theorem claimsCanon_of_octets_either_mode (ber : Bool) (b : List Nat) (d : Decoded) (hb : AllBytes b)
+    (h : decodeCertM ber b = some d) (router strict sigOk : Bool) :
+    C01.ClaimsCanon (toFactsM ber d router strict sigOk) := by
+  obtain ⟨h4, h6, ha⟩ := decodeCert_canonM ber b d hb h
+  refine ⟨?_, ?_, ?_⟩
+  · intro c hc
+    have := shiftV4_canon d.v4 h4
+    show Canon (2 ^ 32 - 1) c
+    have e : shiftV4 d.v4 = .blocks c := hc
+    rw [e] at this; exact this
+  · intro c hc
+    have e : d.v6 = .blocks c := hc
+    rw [e] at h6; exact h6
+  · intro c hc
+    have e : d.asn = .blocks c := hc
+    rw [e] at ha; exact ha
+
+/-- **Signed objects decoded in either mode.** Acceptance implies every condition of the statement for what was read
+from the octets: digest, signature input, signer identifier, and for the embedded EE certificate the positive signature
+verdict, the window, the key identifiers, and validated resources that are canonical and contained in the issuer's. -/
+theorem accepted_object_octets_either_mode (ber : Bool) (b : Bytes) (o : SigObjD) (hb : AllBytes b)
+    (hd : decodeSigObjM ber b = some o)
+    (sigKeyOk eeSigOk : Bool) (sigInput : Bytes) (i r : RC) (now : Int) (hi : C01.RC.Canon i)
+    (h : validateAt Sha.sha256N (toObjM ber o sigKeyOk sigInput eeSigOk) i now = some r) :
+    Sha.sha256N o.content = o.messageDigest ∧ sigKeyOk = true ∧ sigInput = tlv 0x31 o.attrs ∧
+    o.sid = o.cert.ski ∧ eeSigOk = true ∧ o.cert.validity.nb ≤ now ∧ now ≤ o.cert.validity.na ∧
+    o.cert.aki = some i.ski ∧ o.cert.ski = Sha.sha1N o.cert.keyBits ∧ C01.RC.Canon r ∧ C01.RC.Sub r i := by
+  obtain ⟨hpa, cc, rest, hcc, htc⟩ := decodeSigObj_specM ber b o hb hd
+  obtain ⟨md, st, h1, h2, h3, h4, h5, h6⟩ := (validateAt_iff _ _ i now r).1 h
+  have hpa' : SigObj.parseAttrsM ber true o.attrs = some (o.contentType, md, st) :=
+    parseAttrs_any_mode ber true o.attrs _ h1
+  rw [hpa] at hpa'
+  simp only [Option.some.injEq, Prod.mk.injEq] at hpa'
+  obtain ⟨_, e1, _⟩ := hpa'
+  have hdc : decodeCertM ber cc = some o.cert := by unfold decodeCertM; rw [htc]; rfl
+  have hc := claimsCanon_of_octets_either_mode ber cc o.cert hcc hdc false true eeSigOk
+  have hs := C01.validated_subset _ i r now hc hi (Or.inr h6)
+  obtain ⟨a1, a2, a3, a4, a5⟩ := C01.validateEe_sound _ i now r h6
+  exact ⟨by rw [e1]; exact h3, h4, h5, h2, a1, a2, a3, a4, a5, hs.1, hs.2⟩
+
+end EitherMode
 
 end Rpki.Props.C02
